@@ -544,6 +544,13 @@ func taskScheduleHandler() {
 			}
 			t := e.Value.(*Task) //nolint:forcetypeassert // Can only be *Task.
 
+			// The schedule may have changed while waiting, check if the
+			// task at the front is actually due.
+			if time.Now().Before(t.executeAt) {
+				scheduleLock.Unlock()
+				continue
+			}
+
 			// process Task
 			if t.overtime {
 				// already queued and maxDelay reached
